@@ -35,7 +35,28 @@ func GenAnyString() *rapid.Generator[string] {
 			c := rapid.SampledFrom(HostileStrings).Draw(t, "h2")
 			return a + b + c
 		}),
+		GenBoundaryString(),
 	)
+}
+
+// boundaryLengths are the byte lengths around which buffers, size classes and fast paths change.
+var boundaryLengths = []int{15, 16, 17, 31, 32, 33, 63, 64, 65, 127, 128, 129, 255, 256, 257, 511, 512, 513, 1023, 1024, 1025, 2047, 2048, 2049, 4095, 4096, 4097, 8191, 8192, 8193}
+
+// GenBoundaryString draws a string of exactly one of the boundary lengths: plain filler, optionally with one
+// byte that needs escaping (or a multi-byte rune straddling the boundary) at the very end or the very start.
+func GenBoundaryString() *rapid.Generator[string] {
+	return rapid.Custom(func(t *rapid.T) string {
+		n := rapid.SampledFrom(boundaryLengths).Draw(t, "boundaryLen")
+		special := rapid.SampledFrom([]string{"", "", "\"", "\\", "\n", "\x01", "\u00e9", "\u4e16", "\xff", "\x1b"}).Draw(t, "boundarySpecial")
+		if len(special) > n {
+			special = ""
+		}
+		fill := strings.Repeat("a", n-len(special))
+		if rapid.Bool().Draw(t, "specialFirst") {
+			return special + fill
+		}
+		return fill + special
+	})
 }
 
 // GenPlainString draws short printable ASCII words.
